@@ -842,8 +842,8 @@ def tasks(tier):
     q = tier == "quick"
     out = [Task("pinned", "t_pinned")]
     for s in range(15):
-        out.append(Task(f"machine-{s}", "t_machine", shard=s, histories=30 if q else 400, steps=30 if q else 50,
-                        budget=40 if q else 60, fresh_every=7 if q else 10))
+        out.append(Task(f"machine-{s}", "t_machine", shard=s, histories=24 if q else 400, steps=30 if q else 50,
+                        budget=40 if q else 60, fresh_every=4 if q else 5))
     return out
 
 
